@@ -56,6 +56,19 @@ CHECKS = {
         note=TRUST,
         technique='Rocq proof over a Gallina model + differential co-execution against the Python code',
     ),
+    'C15': dict(
+        ref='5.15',
+        text='Theorems in coq/Properties/C15.v for all relationship trees, names and candidates: simple relationships answer '
+             'True/None; versioned ones None for another name, False without candidate, otherwise the stated operator table '
+             'applied to compare(candidate, required) - which is dpkg order (C01 theorem) - and ValueError for an unknown '
+             'operator; alternatives/conjunctions/relationship sets are exactly or_tv/and_tv/sets_tv of Spec/Matching.v over '
+             'their members\' answers, for lists of any length (induction). The model is co-executed with deps.py / '
+             'package.match_relationships on all result vectors up to width 5/6, all operators on every side of each '
+             'required version, and random trees; each clause is also evaluated on the implementation with the extracted dpkg '
+             'reference as oracle.',
+        note=TRUST + 'Architecture restrictions (NotImplementedError) are modelled and excluded as in the property.',
+        technique='Rocq proof (induction over member lists) + exhaustive small-scope co-execution against the Python code',
+    ),
     'C20': dict(
         ref='5.20',
         text='Theorems in coq/Properties/C20.v, proved for all texts by induction over the line list of the Gallina '
